@@ -2,7 +2,7 @@
 from pyvc.dsl import *
 from contracts.specs import *
 try:
-    from cminx.documentation_types import VarType
+    from cminx.documentation_types import VarType, TestDocumentation, MethodDocumentation
 except ImportError:      # the verifier only parses this file
     pass
 
@@ -735,3 +735,422 @@ class aggregator_init_c:
                 fresh(self.definition_command_stack) and len(self.definition_command_stack) == 0 and
                 fresh(self.consumed) and len(self.consumed) == 0)
     modifies = ["fields(self)"]
+
+
+@spec
+def doc_of(dc: "ref:Documented_commandContext") -> str:
+    """the cleaned text of the doccomment of a documented command (what every processor must be handed)"""
+    return clean_doc(dc.bracket_doccomment().getText().split("\n"))
+
+
+@spec
+def is_consumed(agg: "ref:DocumentationAggregator", ctx: "ref") -> bool:
+    """the parse-tree node was already handled through its doccomment (identity, A6)"""
+    return exists(0, len(agg.consumed), lambda i: same(agg.consumed[i], ctx))
+
+
+@spec
+def top_class(agg: "ref:DocumentationAggregator") -> "ref:ClassDocumentation":
+    return agg.documented_classes_stack[-1]
+
+
+@contract("cminx.aggregator:DocumentationAggregator.enterDocumented_command")
+class enterDocumented_command_c:
+    """Pairs a doccomment with its command: the processor chosen by the lower-cased command name is handed
+    exactly the cleaned doccomment text and records one entry of its kind (C01 K2, C02, C12)."""
+    props = ["C01", "C02", "C03", "C04", "C09", "C10", "C11", "C12"]
+    types = {"cleaned_doc": "str", "lines": "list[str]"}
+    raises = {"CMakeSyntaxException": lambda ctx:
+              (lname(ctx.command_invocation()) == "function" or lname(ctx.command_invocation()) == "macro") and
+              len(sargs(ctx.command_invocation())) < 1}
+
+    def requires(self, ctx):
+        return wf_cmd(ctx.command_invocation())
+
+    def ensures_consumed(self, ctx):
+        return (len(self.consumed) == len(old.self.consumed) + 3 and
+                same(self.consumed[-3], ctx.bracket_doccomment()) and
+                same(self.consumed[-2], ctx.command_invocation()) and
+                same(self.consumed[-1], ctx.bracket_doccomment()) and
+                forall(0, len(old.self.consumed), lambda i: same(self.consumed[i], old.self.consumed[i])))
+
+    def ensures_function(self, ctx):
+        return (lname(ctx.command_invocation()) != "function" or
+                (grew1(self.documented, old.self.documented) and
+                 e_function(self, self.documented[-1], ctx.command_invocation(), doc_of(ctx)) and
+                 grew1(self.definition_command_stack, old.self.definition_command_stack) and
+                 same(self.definition_command_stack[-1].documentation, self.documented[-1]) and
+                 self.definition_command_stack[-1].should_document))
+
+    def ensures_macro(self, ctx):
+        return (lname(ctx.command_invocation()) != "macro" or
+                (grew1(self.documented, old.self.documented) and
+                 e_macro(self, self.documented[-1], ctx.command_invocation(), doc_of(ctx)) and
+                 grew1(self.definition_command_stack, old.self.definition_command_stack) and
+                 same(self.definition_command_stack[-1].documentation, self.documented[-1]) and
+                 self.definition_command_stack[-1].should_document))
+
+    def ensures_set(self, ctx):
+        return (lname(ctx.command_invocation()) != "set" or len(sargs(ctx.command_invocation())) < 1 or
+                (grew1(self.documented, old.self.documented) and
+                 e_variable(self.documented[-1], ctx.command_invocation(), doc_of(ctx))))
+
+    def ensures_option(self, ctx):
+        return (lname(ctx.command_invocation()) != "option" or not option_recorded(ctx.command_invocation()) or
+                (grew1(self.documented, old.self.documented) and
+                 e_option(self.documented[-1], ctx.command_invocation(), doc_of(ctx))))
+
+    def ensures_class(self, ctx):
+        return (lname(ctx.command_invocation()) != "cpp_class" or len(sargs(ctx.command_invocation())) < 1 or
+                (grew1(self.documented, old.self.documented) and
+                 e_class(self.documented[-1], ctx.command_invocation(), doc_of(ctx)) and
+                 grew1(self.documented_classes_stack, old.self.documented_classes_stack) and
+                 same(self.documented_classes_stack[-1], self.documented[-1])))
+
+    def ensures_test(self, ctx):
+        return (lname(ctx.command_invocation()) != "ct_add_test" or not test_recorded(ctx.command_invocation()) or
+                (grew1(self.documented, old.self.documented) and
+                 e_test(self.documented[-1], ctx.command_invocation(), doc_of(ctx)) and
+                 same(self.documented_awaiting_function_def, self.documented[-1])))
+
+    def ensures_section(self, ctx):
+        return (lname(ctx.command_invocation()) != "ct_add_section" or not test_recorded(ctx.command_invocation()) or
+                (grew1(self.documented, old.self.documented) and
+                 e_section(self.documented[-1], ctx.command_invocation(), doc_of(ctx)) and
+                 same(self.documented_awaiting_function_def, self.documented[-1])))
+
+    def ensures_ctest(self, ctx):
+        return (lname(ctx.command_invocation()) != "add_test" or not test_recorded(ctx.command_invocation()) or
+                (grew1(self.documented, old.self.documented) and
+                 e_ctest(self.documented[-1], ctx.command_invocation(), doc_of(ctx))))
+
+    def ensures_member(self, ctx):
+        return (lname(ctx.command_invocation()) != "cpp_member" or
+                not member_target_ok(old.self, ctx.command_invocation()) or
+                (unchanged(self.documented, old.self.documented) and
+                 grew1(top_class(self).members, top_class(old.self).members) and
+                 e_method(top_class(self).members[-1], ctx.command_invocation(), doc_of(ctx), False) and
+                 same(self.documented_awaiting_function_def, top_class(self).members[-1])))
+
+    def ensures_ctor(self, ctx):
+        return (lname(ctx.command_invocation()) != "cpp_constructor" or
+                not member_target_ok(old.self, ctx.command_invocation()) or
+                (unchanged(self.documented, old.self.documented) and
+                 grew1(top_class(self).constructors, top_class(old.self).constructors) and
+                 e_method(top_class(self).constructors[-1], ctx.command_invocation(), doc_of(ctx), True) and
+                 same(self.documented_awaiting_function_def, top_class(self).constructors[-1])))
+
+    def ensures_attr(self, ctx):
+        return (lname(ctx.command_invocation()) != "cpp_attr" or
+                not member_target_ok(old.self, ctx.command_invocation()) or
+                (unchanged(self.documented, old.self.documented) and
+                 grew1(top_class(self).attributes, top_class(old.self).attributes) and
+                 e_attr(top_class(self).attributes[-1], ctx.command_invocation(), doc_of(ctx))))
+
+    def ensures_generic(self, ctx):
+        """every other command that carries a doccomment: one generic entry"""
+        return (is_processor_name(lname(ctx.command_invocation())) or
+                (grew1(self.documented, old.self.documented) and
+                 e_generic(self.documented[-1], lname(ctx.command_invocation()), ctx.command_invocation(), doc_of(ctx))))
+
+    def ensures_same_lists(self, ctx):
+        return (same(self.documented, old.self.documented) and same(self.consumed, old.self.consumed) and
+                same(self.definition_command_stack, old.self.definition_command_stack) and
+                same(self.documented_classes_stack, old.self.documented_classes_stack))
+    modifies = ["items(self.consumed)", "items(self.documented)", "items(self.definition_command_stack)",
+                "items(self.documented_classes_stack)", "self.documented_awaiting_function_def",
+                "every_list('LRef')", "every_list('LStr')",
+                "every('AbstractCommandDefinitionDocumentation.has_kwargs')"]
+
+
+@spec
+def is_processor_name(n: str) -> bool:
+    """command names with a dedicated processor (read from the class on every run by the verifier: dir(self))"""
+    return (n == "function" or n == "macro" or n == "set" or n == "option" or n == "cpp_class" or
+            n == "cpp_member" or n == "cpp_constructor" or n == "cpp_attr" or n == "ct_add_test" or
+            n == "ct_add_section" or n == "add_test" or n == "cmake_parse_arguments")
+
+
+# ---------------------------------------------------------------- enterCommand_invocation (C02, C03, C08, C09)
+@spec
+def awaiting_ok(agg: "ref:DocumentationAggregator") -> bool:
+    """a pending declaration is a test/section or a class member (the only kinds that wait for a definition)"""
+    return (agg.documented_awaiting_function_def is None or
+            isinstance(agg.documented_awaiting_function_def, (TestDocumentation, MethodDocumentation)))
+
+
+@spec
+def is_def(n: str) -> bool:
+    return n == "function" or n == "macro"
+
+
+@spec
+def is_enddef(n: str) -> bool:
+    return n == "endfunction" or n == "endmacro"
+
+
+@spec
+def claims(agg: "ref:DocumentationAggregator", cmd: "ref:Command_invocationContext") -> bool:
+    """this function/macro definition implements the immediately preceding member or test declaration"""
+    return is_def(lname(cmd)) and agg.documented_awaiting_function_def is not None
+
+
+@spec
+def auto(agg: "ref:DocumentationAggregator", cmd: "ref:Command_invocationContext", kind: str) -> bool:
+    """an undocumented command of the given kind reaches its include_undocumented_* decision"""
+    return (lname(cmd) == kind and not is_consumed(agg, cmd) and not claims(agg, cmd))
+
+
+@spec
+def all_same(self: "ref:DocumentationAggregator", o: "ref:DocumentationAggregator") -> bool:
+    """no entry, no stack frame, no pending declaration changed"""
+    return (unchanged(self.documented, o.documented) and
+            unchanged(self.documented_classes_stack, o.documented_classes_stack) and
+            unchanged(self.definition_command_stack, o.definition_command_stack) and
+            same(self.documented_awaiting_function_def, o.documented_awaiting_function_def))
+
+
+@contract("cminx.aggregator:DocumentationAggregator.enterCommand_invocation")
+class enterCommand_invocation_c:
+    """Every command passes here.  Case table taken from the statements of C02 / C03 / C08 / C09."""
+    props = ["C02", "C03", "C08", "C09", "C11"]
+    types = {"params": "list[str]", "param_names": "list[str]"}
+    raises = {"CMakeSyntaxException": lambda self, ctx:
+              ((auto(self, ctx, "function") and self.settings.input.include_undocumented_function) or
+               (auto(self, ctx, "macro") and self.settings.input.include_undocumented_macro)) and len(sargs(ctx)) < 1}
+
+    def requires(self, ctx):
+        return (awaiting_ok(self) and
+                (lname(ctx) != "cpp_end_class" or len(self.documented_classes_stack) > 0) and
+                (not is_enddef(lname(ctx)) or len(self.definition_command_stack) > 0 or
+                 (lname(ctx) == "cpp_class" and not self.settings.input.include_undocumented_cpp_class)))
+
+    # ---- classes
+    def ensures_cpp_class_undocumented_flag_off(self, ctx):
+        """an undocumented class that is not shown leaves a placeholder so that its members are not attached
+        to the enclosing class"""
+        return (not (lname(ctx) == "cpp_class" and not self.settings.input.include_undocumented_cpp_class and
+                     not is_consumed(old.self, ctx)) or
+                (grew1(self.documented_classes_stack, old.self.documented_classes_stack) and
+                 self.documented_classes_stack[-1] is None and
+                 unchanged(self.documented, old.self.documented) and
+                 unchanged(self.definition_command_stack, old.self.definition_command_stack)))
+
+    def ensures_cpp_class_documented_flag_off(self, ctx):
+        """C08: the flag only concerns classes WITHOUT a doccomment: a documented class was pushed by its
+        processor and must not get a placeholder on top (known finding F5 on the current tree)"""
+        return (not (lname(ctx) == "cpp_class" and not self.settings.input.include_undocumented_cpp_class and
+                     is_consumed(old.self, ctx)) or
+                unchanged(self.documented_classes_stack, old.self.documented_classes_stack))
+
+    def ensures_cpp_end_class(self, ctx):
+        return (lname(ctx) != "cpp_end_class" or
+                (popped(self.documented_classes_stack, old.self.documented_classes_stack) and
+                 unchanged(self.documented, old.self.documented) and
+                 unchanged(self.definition_command_stack, old.self.definition_command_stack) and
+                 same(self.documented_awaiting_function_def, old.self.documented_awaiting_function_def)))
+
+    # ---- definitions
+    def ensures_cmake_parse_arguments(self, ctx):
+        """only the definition on top of the open-definition stack is marked"""
+        return (lname(ctx) != "cmake_parse_arguments" or
+                (all_same(self, old.self) and
+                 (not (len(self.definition_command_stack) > 0 and self.definition_command_stack[-1].should_document and
+                       self.definition_command_stack[-1].documentation is not None) or
+                  self.definition_command_stack[-1].documentation.has_kwargs)))
+
+    def ensures_claimed(self, ctx):
+        """the definition that implements the pending declaration: no entry of its own; one frame unless it was
+        already pushed through its own doccomment"""
+        return (not claims(old.self, ctx) or
+                (unchanged(self.documented, old.self.documented) and
+                 unchanged(self.documented_classes_stack, old.self.documented_classes_stack) and
+                 self.documented_awaiting_function_def is None and
+                 (not is_consumed(old.self, ctx) or
+                  unchanged(self.definition_command_stack, old.self.definition_command_stack)) and
+                 (is_consumed(old.self, ctx) or
+                  (grew1(self.definition_command_stack, old.self.definition_command_stack) and
+                   self.definition_command_stack[-1].documentation is None and
+                   not self.definition_command_stack[-1].should_document))))
+
+    def ensures_claimed_method(self, ctx):
+        """C09: parameter names of the definition (without name and self), after the member strip pattern;
+        macro flag from the defining command"""
+        return (not (claims(old.self, ctx) and isinstance(old.self.documented_awaiting_function_def, MethodDocumentation)) or
+                (cast(cur(old.self.documented_awaiting_function_def), "MethodDocumentation").is_macro ==
+                 (lname(ctx) == "macro") and
+                 len(cast(cur(old.self.documented_awaiting_function_def), "MethodDocumentation").params) ==
+                 len(cast(old.self.documented_awaiting_function_def, "MethodDocumentation").params) +
+                 (len(sargs(ctx)) - 2 if len(sargs(ctx)) > 2 else 0) and
+                 forall(0, len(cast(old.self.documented_awaiting_function_def, "MethodDocumentation").params),
+                        lambda i: cast(cur(old.self.documented_awaiting_function_def), "MethodDocumentation").params[i] ==
+                        cast(old.self.documented_awaiting_function_def, "MethodDocumentation").params[i]) and
+                 forall(0, len(sargs(ctx)) - 2,
+                        lambda j: cast(cur(old.self.documented_awaiting_function_def), "MethodDocumentation").params[
+                            len(cast(old.self.documented_awaiting_function_def, "MethodDocumentation").params) + j] ==
+                        re_sub(self.settings.input.member_parameter_name_strip_regex, sargs(ctx)[j + 2]))))
+
+    def ensures_claimed_test(self, ctx):
+        return (not (claims(old.self, ctx) and isinstance(old.self.documented_awaiting_function_def, TestDocumentation)) or
+                (cast(cur(old.self.documented_awaiting_function_def), "TestDocumentation").is_macro ==
+                 (lname(ctx) == "macro") and
+                 len(cast(cur(old.self.documented_awaiting_function_def), "TestDocumentation").params) ==
+                 len(cast(old.self.documented_awaiting_function_def, "TestDocumentation").params) +
+                 (len(sargs(ctx)) - 2 if len(sargs(ctx)) > 2 else 0) and
+                 forall(0, len(sargs(ctx)) - 2,
+                        lambda j: cast(cur(old.self.documented_awaiting_function_def), "TestDocumentation").params[
+                            len(cast(old.self.documented_awaiting_function_def, "TestDocumentation").params) + j] ==
+                        sargs(ctx)[j + 2])))
+
+    def ensures_enddef(self, ctx):
+        return (not is_enddef(lname(ctx)) or
+                (lname(ctx) == "cpp_class" and not self.settings.input.include_undocumented_cpp_class) or
+                (popped(self.definition_command_stack, old.self.definition_command_stack) and
+                 unchanged(self.documented, old.self.documented) and
+                 unchanged(self.documented_classes_stack, old.self.documented_classes_stack) and
+                 same(self.documented_awaiting_function_def, old.self.documented_awaiting_function_def)))
+
+    # ---- undocumented commands of the auto-documented kinds (C02 with defaults, C08 for every flag value)
+    def ensures_auto_function_on(self, ctx):
+        return (not (auto(old.self, ctx, "function") and self.settings.input.include_undocumented_function) or
+                (grew1(self.documented, old.self.documented) and
+                 e_function(self, self.documented[-1], ctx, "") and
+                 grew1(self.definition_command_stack, old.self.definition_command_stack) and
+                 same(self.definition_command_stack[-1].documentation, self.documented[-1]) and
+                 self.definition_command_stack[-1].should_document))
+
+    def ensures_auto_function_off(self, ctx):
+        return (not (auto(old.self, ctx, "function") and not self.settings.input.include_undocumented_function) or
+                (unchanged(self.documented, old.self.documented) and
+                 grew1(self.definition_command_stack, old.self.definition_command_stack) and
+                 self.definition_command_stack[-1].documentation is None and
+                 not self.definition_command_stack[-1].should_document))
+
+    def ensures_auto_macro_on(self, ctx):
+        return (not (auto(old.self, ctx, "macro") and self.settings.input.include_undocumented_macro) or
+                (grew1(self.documented, old.self.documented) and
+                 e_macro(self, self.documented[-1], ctx, "") and
+                 grew1(self.definition_command_stack, old.self.definition_command_stack) and
+                 same(self.definition_command_stack[-1].documentation, self.documented[-1]) and
+                 self.definition_command_stack[-1].should_document))
+
+    def ensures_auto_macro_off(self, ctx):
+        return (not (auto(old.self, ctx, "macro") and not self.settings.input.include_undocumented_macro) or
+                (unchanged(self.documented, old.self.documented) and
+                 grew1(self.definition_command_stack, old.self.definition_command_stack) and
+                 self.definition_command_stack[-1].documentation is None and
+                 not self.definition_command_stack[-1].should_document))
+
+    def ensures_auto_option(self, ctx):
+        return (not auto(old.self, ctx, "option") or
+                ((not (self.settings.input.include_undocumented_option and option_recorded(ctx)) or
+                  (grew1(self.documented, old.self.documented) and e_option(self.documented[-1], ctx, ""))) and
+                 (self.settings.input.include_undocumented_option or all_same(self, old.self))))
+
+    def ensures_auto_class_on(self, ctx):
+        return (not (auto(old.self, ctx, "cpp_class") and self.settings.input.include_undocumented_cpp_class and
+                     len(sargs(ctx)) >= 1) or
+                (grew1(self.documented, old.self.documented) and e_class(self.documented[-1], ctx, "") and
+                 grew1(self.documented_classes_stack, old.self.documented_classes_stack) and
+                 same(self.documented_classes_stack[-1], self.documented[-1])))
+
+    def ensures_auto_test(self, ctx):
+        return (not auto(old.self, ctx, "ct_add_test") or
+                ((not (self.settings.input.include_undocumented_ct_add_test and test_recorded(ctx)) or
+                  (grew1(self.documented, old.self.documented) and e_test(self.documented[-1], ctx, "") and
+                   same(self.documented_awaiting_function_def, self.documented[-1]))) and
+                 (self.settings.input.include_undocumented_ct_add_test or all_same(self, old.self))))
+
+    def ensures_auto_section(self, ctx):
+        return (not auto(old.self, ctx, "ct_add_section") or
+                ((not (self.settings.input.include_undocumented_ct_add_section and test_recorded(ctx)) or
+                  (grew1(self.documented, old.self.documented) and e_section(self.documented[-1], ctx, "") and
+                   same(self.documented_awaiting_function_def, self.documented[-1]))) and
+                 (self.settings.input.include_undocumented_ct_add_section or all_same(self, old.self))))
+
+    def ensures_auto_ctest(self, ctx):
+        return (not auto(old.self, ctx, "add_test") or
+                ((not (self.settings.input.include_undocumented_add_test and test_recorded(ctx)) or
+                  (grew1(self.documented, old.self.documented) and e_ctest(self.documented[-1], ctx, ""))) and
+                 (self.settings.input.include_undocumented_add_test or all_same(self, old.self))))
+
+    def ensures_auto_member(self, ctx):
+        return (not auto(old.self, ctx, "cpp_member") or
+                ((not (self.settings.input.include_undocumented_cpp_member and member_target_ok(old.self, ctx)) or
+                  (unchanged(self.documented, old.self.documented) and
+                   grew1(top_class(self).members, old.self.documented_classes_stack[-1].members) and
+                   e_method(top_class(self).members[-1], ctx, "", False) and
+                   same(self.documented_awaiting_function_def, top_class(self).members[-1]))) and
+                 (self.settings.input.include_undocumented_cpp_member or all_same(self, old.self))))
+
+    def ensures_auto_ctor(self, ctx):
+        return (not auto(old.self, ctx, "cpp_constructor") or
+                ((not (self.settings.input.include_undocumented_cpp_constructor and member_target_ok(old.self, ctx)) or
+                  (unchanged(self.documented, old.self.documented) and
+                   grew1(top_class(self).constructors, old.self.documented_classes_stack[-1].constructors) and
+                   e_method(top_class(self).constructors[-1], ctx, "", True) and
+                   same(self.documented_awaiting_function_def, top_class(self).constructors[-1]))) and
+                 (self.settings.input.include_undocumented_cpp_constructor or all_same(self, old.self))))
+
+    def ensures_auto_attr(self, ctx):
+        return (not auto(old.self, ctx, "cpp_attr") or
+                ((not (self.settings.input.include_undocumented_cpp_attr and member_target_ok(old.self, ctx)) or
+                  (unchanged(self.documented, old.self.documented) and
+                   grew1(top_class(self).attributes, old.self.documented_classes_stack[-1].attributes) and
+                   e_attr(top_class(self).attributes[-1], ctx, ""))) and
+                 (self.settings.input.include_undocumented_cpp_attr or all_same(self, old.self))))
+
+    # ---- everything else produces nothing (C02)
+    def ensures_other_commands(self, ctx):
+        """commands of any other kind without a doccomment, `set`, and commands already handled through their
+        doccomment change nothing"""
+        return (not ((not is_processor_name(lname(ctx)) and lname(ctx) != "cpp_end_class" and
+                      not is_enddef(lname(ctx))) or lname(ctx) == "set" or lname(ctx) == "generic_command" or
+                     (is_consumed(old.self, ctx) and lname(ctx) != "cpp_class" and lname(ctx) != "cmake_parse_arguments"
+                      and lname(ctx) != "cpp_end_class" and not is_enddef(lname(ctx)) and not claims(old.self, ctx))) or
+                all_same(self, old.self))
+
+    def ensures_same_lists(self, ctx):
+        return (same(self.documented, old.self.documented) and same(self.consumed, old.self.consumed) and
+                same(self.definition_command_stack, old.self.definition_command_stack) and
+                same(self.documented_classes_stack, old.self.documented_classes_stack) and
+                unchanged(self.consumed, old.self.consumed))
+    modifies = ["items(self.documented)", "items(self.definition_command_stack)",
+                "items(self.documented_classes_stack)", "self.documented_awaiting_function_def",
+                "every_list('LRef')", "every_list('LStr')",
+                "every('AbstractCommandDefinitionDocumentation.has_kwargs')",
+                "every('TestDocumentation.is_macro')", "every('MethodDocumentation.is_macro')"]
+
+
+# ---------------------------------------------------------------- module doccomment (C12, C01)
+@spec
+def mod_lines(ctx: "ref:Documented_moduleContext") -> "list[str]":
+    """the cleaned module doccomment, line by line"""
+    return clean_doc(ctx.Module_docstring().getText().split("\n")).split("\n")
+
+
+@contract("cminx.aggregator:DocumentationAggregator.enterDocumented_module")
+class enterDocumented_module_c:
+    """the module doccomment becomes one module entry: name from its first line, the rest is its text; nothing
+    else is touched (so the text cannot reach the following command)"""
+    props = ["C12", "C01", "C02"]
+    types = {"cleaned_lines": "list[str]"}
+
+    def ensures(self, ctx):
+        return (grew1(self.documented, old.self.documented) and same(self.documented, old.self.documented) and
+                fresh(self.documented[-1]) and typeof(self.documented[-1], "ModuleDocumentation") and
+                cast(self.documented[-1], "ModuleDocumentation").name ==
+                mod_lines(ctx)[0].replace("@module", "").strip() and
+                cast(self.documented[-1], "ModuleDocumentation").doc == join("\n", mod_lines(ctx)[1:]))
+    modifies = ["items(self.documented)"]
+
+
+@contract("cminx.aggregator:DocumentationAggregator.enterBracket_doccomment")
+class enterBracket_doccomment_c:
+    """a doccomment that is not followed by a command produces nothing (C02)"""
+    props = ["C02"]
+    types = {"ctx": "ref:Bracket_doccommentContext"}
+
+    def ensures(self, ctx):
+        return True
+    modifies = []
